@@ -373,7 +373,23 @@ def prov_filter(ctx):
         ce, _ = _closure_sx(f, mp[0][2][1][1], r)
         ok = ce[0] == "field" and ce[2] == "max" and ce[1][0] == "call" and ce[1][1] == SS + "::capacity"
     ob("max_capacity", ok, "max_capacity() = maximum of capacity().max over the list", b, T.sx_show(e))
-    obs += floor(obs, r, 15, "filter wiring obligations")
+    # From<SymbolSize>, From<[SymbolSize; N]>, Extend: delegate to the whitelist constructor / the set
+    for name in list(f.thir):
+        cn = T.canon(name)
+        if cn.startswith("<symbol_size::SymbolList as core::convert::From<") and cn.endswith(">::from"):
+            e = T.sx(f.thir[name]["body"], T.let_env(f.thir[name]["body"]))
+            ok = e[0] == "call" and e[1].endswith("SymbolList::with_whitelist") and len(e[2]) == 1
+            if ok:
+                a = e[2][0]
+                ok = a[:2] == ("var", "other") or (a[0] == "array" and len(a[1]) == 1 and a[1][0][:2] == ("var", "size"))
+            ob("From:" + ("array" if "[" in cn else "single"), ok, "%s builds the list from exactly its argument" % cn.split("::<impl ")[-1][:60], f.thir[name], T.sx_show(e))
+        if cn == "<symbol_size::SymbolList as core::iter::Extend<symbol_size::SymbolSize>>::extend":
+            e = T.sx(f.thir[name]["body"], T.let_env(f.thir[name]["body"]))
+            sts_ = T.stmts(f.thir[name]["body"], {})
+            calls = [x for st in sts_ for ex in T.stmt_exprs(st) for x in T.sx_calls(ex, "::extend")]
+            ok = len(calls) == 1 and _is_symbols_of_self(calls[0][2][0]) and calls[0][2][1][:2] == ("var", "iter")
+            ob("Extend", ok, "Extend adds exactly the given iterator to the set", f.thir[name])
+    obs += floor(obs, r, 18, "filter wiring obligations")
     return obs
 
 
